@@ -319,7 +319,10 @@ class Engine(Interp):
             return self.unrolled_while(node)
         self.cut_loop(node, spec, k, lambda: self.truth(self.ev(node.test)), node.body, node.orelse)
 
-    def unrolled_while(self, node, bound=64):
+    unroll_bound = 64
+
+    def unrolled_while(self, node, bound=None):
+        bound = bound or self.unroll_bound
         for _ in range(bound):
             if not self.truth(self.ev(node.test)):
                 self.exec_block(node.orelse)
@@ -711,6 +714,11 @@ def _m_str(I, args, kwargs, node):
         return str(v)
     if isinstance(v, SStr):
         return v
+    if type(v).__name__ == "SChar":
+        from .opaque import ufun
+        return SStr(ufun("str.of_char", z3.IntSort(), z3.IntSort())(v.t))
+    if not isinstance(v, SOpaque):
+        return SStr(I.ctx.fresh("str", z3.IntSort()))
     hook = getattr(I.reg, "str_of", None)
     if hook is not None:
         return hook(I, v)
